@@ -1,6 +1,7 @@
 package proxy
 
 import (
+	"time"
 	"context"
 	"errors"
 	"fmt"
@@ -66,6 +67,7 @@ type fwSrc struct {
 	sendFail  bool
 	sendErr   error // what a failing Send reports (default errC06); grpc client streams report io.EOF once the stream is done
 	closeSend int
+	closeSendStalls bool
 	md        metadata.MD
 	opened    bool
 }
@@ -89,7 +91,16 @@ func (s *fwSrc) Send(m *adminservice.StreamWorkflowReplicationMessagesRequest) e
 	s.got = append(s.got, m)
 	return nil
 }
-func (s *fwSrc) CloseSend() error { s.closeSend++; return nil }
+func (s *fwSrc) CloseSend() error {
+	s.closeSend++
+	if s.closeSendStalls {
+		// a wedged transport: CloseSend only gives up when the stream's context is cancelled (the
+		// forwarder guards this call with a one-second timeout for that reason)
+		<-s.ctx.Done()
+		return s.ctx.Err()
+	}
+	return nil
+}
 
 type fwAdminClient struct {
 	adminservice.AdminServiceClient
@@ -192,6 +203,7 @@ func verifHarness_C06_forwarder() {
 			}
 		case 2:
 			ended = true
+			src.closeSendStalls = verifParam("stall", 0) == 1 && verifChoose("close-send", 2) == 1
 			kind := verifChoose("ending", 11)
 			switch kind {
 			case 0:
@@ -241,6 +253,13 @@ func verifHarness_C06_forwarder() {
 	}
 	verifQuiesce()
 	verifQuiesce()
+	if src.closeSendStalls {
+		// the forwarder's own one-second guard on CloseSend expires
+		verifAdvance(1100 * time.Millisecond)
+		verifQuiesce()
+		verifQuiesce()
+		verifReach("close-send-stalled")
+	}
 	verifReach("stream-ended")
 	verifAssert(returned, "handler-returns-when-either-side-ends")
 	// gRPC cancels the server stream's context when the handler returns
